@@ -29,6 +29,12 @@ PairwiseReduced(M) ==
   /\ \A i \in 1..(Len(M) - 1) : M[i][i] <= M[i + 1][i + 1]
   /\ \A i \in 1..Len(M) : \A j \in (i + 1)..Len(M) : 2 * Abs(M[i][j]) <= M[i][i]
 
+\* "length of each lattice vector is minimal" (Minkowski reduction; in 2D/3D coefficients -1..1 suffice):
+\* no lattice vector whose last non-zero coefficient sits at position i is shorter than a_i
+LastNonZero(x) == CHOOSE i \in DOMAIN x : x[i] # 0 /\ \A j \in DOMAIN x : j > i => x[j] = 0
+VectorsMinimal(M) ==
+  \A x \in Box(Len(M), 1) : (x = VZero(Len(M))) \/ Quad(M, x, x) >= M[LastNonZero(x)][LastNonZero(x)]
+
 \* definitional invariants of one constructed crystal (computed once per distinct observed world)
 ObsFacts(o) ==
   LET G == OpsRT(o, 2) IN [order |-> Cardinality(G), kk |-> PureTranslations(o, G), natoms |-> NAtoms(o)]
@@ -49,6 +55,7 @@ RunClauses(w, w0, obsf, obs, r, j) ==
    <<tag("result_is_a_primitive_cell"), ok => f.kk = 1>>,
    <<tag("lattice_right_handed"), ok => r.rh>>,
    <<tag("lattice_reduced"), ok => PairwiseReduced(o.M)>>,
+   <<tag("lattice_vectors_minimal"), ok => VectorsMinimal(o.M)>>,
    <<tag("group_order_equals_primitive_description"), (ok /\ w0.kk = 1) => r.nG = w0.order>>,
    <<tag("group_order_equals_definitional_order_of_result"), ok => r.nG = f.order>>,
    <<tag("result_has_the_symmetry_of_the_primitive_description"), (ok /\ w0.kk = 1) => f.order = w0.order>>
